@@ -339,6 +339,39 @@ def run(tier):
     we = escapes(w_str[0])
     if not we:
         raise AnalysisBroken("mfront::write(strings): escaping idiom not recognised (neither replace_all nor std::quoted)")
+    # the escape character must itself be escaped, and first: otherwise a string that ends with it, or holds it before a quote, is
+    # written as something the tokenizer reads differently (an unterminated string: the registry becomes unreadable)
+
+    def order(fn):
+        """replacements of fn in the order they are applied (an inner replace_all is applied before the call that takes it as its subject)."""
+        out = []
+        for g in with_lambdas(fn):
+            calls = [(sid, n) for sid, n in g.stmts.items() if n["k"] == "CallExpr" and (n.get("callee") or "").endswith("replace_all") and len(n.get("args", [])) >= 3]
+
+            def depth(sid):
+                return sum(1 for s2, n2 in calls if s2 != sid and sid in set(g.walk(n2["args"][0])))
+            for sid, n in sorted(calls, key=lambda c: (-depth(c[0]), c[0])):
+                l1 = [g.stmts[x].get("value") for x in g.walk(n["args"][1]) if g.stmts[x]["k"] == "StringLiteral"]
+                l2 = [g.stmts[x].get("value") for x in g.walk(n["args"][2]) if g.stmts[x]["k"] == "StringLiteral"]
+                out.append((l1[0], l2[0]))
+        return out
+    escs = set(b[0] for a, b in we if len(b) == len(a) + 1 and b[1:] == a)
+    rep.count("escape characters of the registry writer", len(escs))
+    for e_ in sorted(escs):
+        wo = order(w_str[0])
+        if (e_, e_ + e_) not in we:
+            rep.fail("ESCAPE-CHARACTER@mfront::write", "%s: write(os, strings, id) escapes %s with '%s' but does not escape '%s' itself: a string that ends with it "
+                     "(-D 'P=C:%s') is written as an unterminated string, the next run cannot read src/targets.lst and rewrites it without the "
+                     "libraries registered before" % (rel(w_str[0].loc), sorted(a for a, b in we), e_, e_, e_))
+        elif wo and wo[0] != (e_, e_ + e_):
+            rep.fail("ESCAPE-CHARACTER@mfront::write#order", "%s: write(os, strings, id) must escape '%s' before the other characters (applied order: %s)"
+                     % (rel(w_str[0].loc), e_, wo))
+        else:
+            rep.ok("write(strings) escapes the escape character '%s' first" % e_)
+            for rf in r_str:
+                ro = order(rf)
+                if ro and ro[-1] != (e_ + e_, e_):
+                    rep.fail("ESCAPE-CHARACTER@mfront::read#order", "%s: the reader must undo the escaping of '%s' last (applied order: %s)" % (rel(rf.loc), e_, ro))
     for rf in r_str:
         rep.count("escaping agreements")
         re_ = escapes(rf)
@@ -351,6 +384,7 @@ def run(tier):
                      "survive a write/read cycle, so the registry changes from run to run" % (rel(rf.loc), sorted(we), kind, sorted(re_),
                                                                                              sorted(a for a, b in (we ^ set((b2, a2) for a2, b2 in re_)))))
     rep.floor("escaping agreements", 2)
+    rep.floor("escape characters of the registry writer", 1)
     rep.floor("functions naming the registry file", 2)
     rep.floor("field-coverage obligations", 39)
     rep.floor("labels compared", 20)
